@@ -10,9 +10,10 @@ git -C /repo worktree add --detach "$R" HEAD >/dev/null 2>&1 || { echo "worktree
 mkdir -p "$V" && git -C /verif archive HEAD | tar -x -C "$V" || exit 2
 sed -i "s#=> /repo#=> $R#" "$V/harness/go.mod"
 OUT=/verif/out/mutant_matrix.txt
-: > "$OUT"
+[ -n "${ONLY:-}" ] || : > "$OUT"     # ONLY="C01-D C03-A ...": re-run just these and replace their lines
 for D in /verif/seeded/*/; do
   ID=$(basename "$D")
+  if [ -n "${ONLY:-}" ]; then case " $ONLY " in *" $ID "*) sed -i "/^$ID /d" "$OUT";; *) continue;; esac; fi
   P=$(jq -r '.breaks // .property' "$D/meta.json")
   if ! git -C "$R" apply --check "$D/patch.diff" 2>/dev/null; then echo "$ID $P PATCH-DOES-NOT-APPLY" | tee -a "$OUT"; continue; fi
   git -C "$R" apply "$D/patch.diff"
